@@ -81,7 +81,10 @@ if mode == 'faults':
             if unchecked_root:
                 s.xsd_check = False
                 label = 'unchecked-root:%s' % b[1]
-            path = os.path.join(d, 'f_%s_%s.xml' % (str(label).replace(':', '_'), pname))
+            # the destination's own name is the caller's business: any suffix, several, none (a writer that derives a scratch name from it must not collide with it)
+            EXTS = ['.xml', '.tmp', '.musicxml', '.xml.tmp', '', '.bak', '.XML', '.part', '.xml~', '.new']
+            n_path = globals().get('_n_path', 0); globals()['_n_path'] = n_path + 1
+            path = os.path.join(d, 'f_%s_%s%s' % (str(label).replace(':', '_'), pname, EXTS[n_path % len(EXTS)]))
             if pname == 'same':
                 good, _ = make_score()
                 prior = (DECL + good.to_string()).encode('utf-8')
